@@ -141,8 +141,12 @@ def evaluate(case, d, label=""):
             if cats_sorted.index(u[2]) >= 128 or cats_sorted.index(v[2]) >= 128:
                 hi_rank = True
         else:
-            u = [u[0], u[1], gen.LABELS_ABC[u[2] % 4]]
-            v = [v[0], v[1], gen.LABELS_ABC[v[2] % 4]]
+            # no category table: any label is accepted, and so is "no label" (unlabelled units)
+            pool = gen.LABELS_ABC + [None]
+            u = [u[0], u[1], pool[u[2] % 5]]
+            v = [v[0], v[1], pool[v[2] % 5]]
+            if u[2] is None or v[2] is None:
+                classes.append("unlabelled-unit")
         u, v = tuple(u), tuple(v)
         U = pa.Unit(Segment(u[0], u[1]), u[2])
         V = pa.Unit(Segment(v[0], v[1]), v[2])
